@@ -142,12 +142,15 @@ def run_case(case, errs):
     r.play()
     score = main.process(1.0)
     out = []
+    end = None
     for entry in score.list:
         t = entry[0]
         for msg in entry[1:]:
+            if msg[0] == '/c_set':
+                end = repr(float(t) - 1.0)        # time of the last wake-up (tail = 1.0)
             if msg[0] in ('/s_new', '/n_set', '/n_free'):
                 out.append([repr(float(t)), msg[0]] + [fmt_arg(a) for a in msg[1:]])
-    return {'msgs': out, 'errors': errs.n - before, 'build_error': build_error,
+    return {'msgs': out, 'end': end, 'errors': errs.n - before, 'build_error': build_error,
             'error_text': errs.last if errs.n > before else ''}
 
 
@@ -176,8 +179,8 @@ def run(payload):
             finally:
                 signal.setitimer(signal.ITIMER_REAL, 0)
         except _Timeout:
-            res.append({'msgs': [], 'errors': -1, 'build_error': ['TIMEOUT'], 'error_text': 'TIMEOUT'})
+            res.append({'msgs': [], 'end': None, 'errors': -1, 'build_error': ['TIMEOUT'], 'error_text': 'TIMEOUT'})
         except Exception as e:
-            res.append({'msgs': [], 'errors': -1, 'error_text': '',
+            res.append({'msgs': [], 'end': None, 'errors': -1, 'error_text': '',
                         'build_error': ['HARNESS:' + type(e).__name__ + ':' + str(e)[:200]]})
     return res
